@@ -211,7 +211,7 @@ def expected_session(rendered):
 
 # --------------------------------------------------------------------- (b)
 
-OPS = ["c", "n", "s", "2", "r", "l", "m", "i", "p", "y"]
+OPS = ["c", "n", "s", "2", "r", "l", "m", "i", "p", "y", "g"]
 OP_DOC = {
     "c": "K                          fresh constant",
     "n": "None                       None-valued form",
@@ -223,8 +223,9 @@ OP_DOC = {
     "i": "(+ K  /  1)                incomplete line, then its completion",
     "p": "(print K)                  print (value None)",
     "y": "(setv K)                   compile-time syntax error",
+    "g": "(let [a K] (nonlocal zq) a)  compile-time error raised when the global scope is left (state kept by the REPL's one compiler)",
 }
-FAILS = {"r": "runtime", "l": "reader", "m": "macro", "y": "compile"}
+FAILS = {"r": "runtime", "l": "reader", "m": "macro", "y": "compile", "g": "compile"}
 
 
 def hist_const(index):
@@ -243,6 +244,7 @@ def op_lines(op, k):
         "i": ["(+ %d" % k, "1)"],
         "p": ["(print %d)" % k],
         "y": ["(setv %d)" % k],
+        "g": ["(let [a %d] (nonlocal zq) a)" % k],
     }[op]
 
 
